@@ -9,6 +9,7 @@
   operations only there).
 -/
 import Proofs.C06Lemmas
+import TaurexModel.Chemistry
 
 namespace Taurex.C06
 open Taurex.Likelihood
@@ -70,6 +71,35 @@ theorem invalid_not_finite (priors : List (Prior ℝ)) (fm : List ℝ → ModelO
   rfl
 
 example : loglike Real.pi [1, 2] [1, 1] (ModelOut.invalid : ModelOut ℝ) = .nan := rfl
+
+/-- **Mixing ratios above unity anywhere in the atmosphere.**  For a forward model that builds its atmosphere with the
+    free chemistry — it raises whenever the mixture rule `Chemistry.mixProfile` (the model of
+    `TaurexChemistry.initialize_chemistry`, property C10) rejects the gas profiles `traces p` its parameters describe —
+    a parameter vector whose summed gas profiles exceed one in SOME layer (one is enough: a layer-dependent profile that
+    is fine at the top and above unity in the deep layers) gets NaN, never a finite likelihood. -/
+theorem mixture_above_unity_not_finite (priors : List (Prior ℝ)) (fm : List ℝ → ModelOut ℝ) (obs sig theta : List ℝ)
+    (hlen : theta.length = priors.length) (nFill : Nat) (ratios : List ℝ) (traces : List ℝ → List (List ℝ)) (n : Nat)
+    (hfm : ∀ p, (∃ rows, Chemistry.mixProfile nFill ratios (traces p) n = .ok rows) ∨ fm p = .invalid)
+    (t : ℝ) (ht : t ∈ Chemistry.totalMix (traces (List.zipWith (fun p v => p.prior v) priors theta)) n) (h1 : 1 < t) :
+    loglikeCallback Real.pi priors fm obs sig theta = some .nan := by
+  apply (invalid_not_finite priors fm obs sig theta hlen).2
+  rcases hfm (List.zipWith (fun p v => p.prior v) priors theta) with ⟨rows, hok⟩ | hinv
+  · exfalso
+    unfold Chemistry.mixProfile at hok
+    split at hok
+    · cases hok
+    · have hany : (Chemistry.totalMix (traces (List.zipWith (fun p v => p.prior v) priors theta)) n).any
+          (fun t => decide (1 < t)) = true := List.any_eq_true.2 ⟨t, ht, by simpa using h1⟩
+      simp only [hany, if_true] at hok
+      cases hok
+  · exact hinv
+
+/-- not vacuous: CH4 = 0.6 in both layers, H2O = 0.7 in the deep layer and 1e-6 at the top: the total exceeds one in the
+    deep layer only, and the mixture rule rejects it -/
+example : Chemistry.totalMix (α := Rat) [[6/10, 6/10], [7/10, 1/1000000]] 2 = [13/10, 600001/1000000] ∧
+    (match Chemistry.mixProfile (α := Rat) 2 [17/100] [[6/10, 6/10], [7/10, 1/1000000]] 2 with
+      | .invalid => true | _ => false) = true := by
+  constructor <;> decide +kernel
 
 /-- NaN bins of the model are skipped by the sum (`np.nansum`); a model that is NaN in every bin gives NaN. -/
 theorem nan_bins (obs sig : List ℝ) (m : List (Option ℝ)) :
